@@ -305,6 +305,87 @@ func registerDuringSyncs() *sched.Scenario {
 	}
 }
 
+// N7: one thread registers a listener, syncs, registers a second listener,
+// syncs again and cancels both: program order alone makes each registration
+// precede the sync that follows it, so the only freedom left is the library's
+// own (which goroutine runs while the thread waits, which case a select takes
+// first). Small enough to complete the bound in the quick tier.
+func registerThenSync() *sched.Scenario {
+	name := "N7-register-then-sync"
+	return &sched.Scenario{Name: name,
+		Setup: func(e *sched.Exec) ([]sched.Thread, func()) {
+			w := schedfx.New(e, schedfx.Options{Pubs: 1, ChainLen: 3, Prestore: true})
+			p, ch := w.Pubs[0], w.Chains[0]
+			var ls []*syncfx.Listener
+			ths := []sched.Thread{
+				{Name: "T", Fn: func() {
+					for h := 1; h <= 2; h++ {
+						e.Log("T call register[%d]", h)
+						ls = append(ls, w.Listen())
+						e.Log("T ret register[%d]", h)
+						p.Publisher.SetRoot(ch.Cids[h])
+						e.Log("T call sync[%d]", h)
+						_, err := w.Sub.SyncAdChain(context.Background(), p.AddrInfo())
+						e.Log("T ret sync[%d] err=%v", h, err)
+					}
+				}},
+			}
+			return ths, finish(e, w, func(f *final) {
+				for i, l := range ls {
+					evs, cl := l.StopCheck()
+					var got []string
+					for _, ev := range evs {
+						got = append(got, w.EventStr(ev))
+					}
+					e.Log("listener[%d] events=%v closed=%v", i+1, got, cl)
+				}
+			})
+		},
+		Check: func(e *sched.Exec) []sched.Finding {
+			out := basics(e, name, []string{"T"})
+			f, _ := e.Data.(*final)
+			if f == nil || len(out) > 0 {
+				return out
+			}
+			want := map[int]string{1: "[pub0[1] count=1 pub0[2] count=1]", 2: "[pub0[2] count=1]"}
+			seen := 0
+			for _, l := range e.Obs() {
+				var i int
+				if k, _ := fmt.Sscanf(l, "listener[%d] events=", &i); k != 1 {
+					continue
+				}
+				seen++
+				rest := l[strings.Index(l, "events=")+len("events="):]
+				evs := rest[:strings.LastIndex(rest, " closed=")]
+				// the second listener may also receive the first sync's
+				// notification: SyncAdChain returns once the notification is
+				// queued for the distributor, which may forward it only after
+				// the next registration; the property does not forbid that
+				if i == 2 && evs == want[1] {
+					continue
+				}
+				if evs != want[i] {
+					sig := ":registered-listener-missed-event"
+					if len(evs) > len(want[i]) {
+						sig = ":event-delivered-twice-or-out-of-order"
+					}
+					out = append(out, sched.Finding{Sig: name + sig, Msg: fmt.Sprintf("listener %d, registered before sync[%d] was invoked and cancelled after all syncs returned, received %s, want %s", i, i, evs, want[i])})
+				}
+				if !strings.HasSuffix(l, "closed=true") {
+					out = append(out, sched.Finding{Sig: name + ":listener-channel-not-closed-after-cancel", Msg: l})
+				}
+			}
+			if seen != 2 {
+				out = append(out, sched.Finding{Sig: name + ":harness", Msg: fmt.Sprintf("%d listener lines", seen)})
+			}
+			if fmt.Sprint(f.setup) != "[pub0[1] count=1 pub0[2] count=1]" {
+				out = append(out, sched.Finding{Sig: name + ":listener-missed-or-wrong-event", Msg: fmt.Sprintf("listener registered during set-up received %v", f.setup)})
+			}
+			return out
+		},
+	}
+}
+
 // N3: an announce-triggered sync that fails: exactly one notification, with the error.
 func failingAnnounce() *sched.Scenario {
 	name := "N3-failing-announce-sync"
@@ -643,7 +724,7 @@ func longStall(t *testing.T, r *vp.Recorder, n int) {
 
 func TestCheck(t *testing.T) {
 	r := vp.New("C14", "model_checking",
-		"scenarios on the real subscriber built with the instrumentation overlay (gated in-memory publishers, chains of 3 signed ads): N1 two publishers synced by two threads with a reading and a never-reading listener; N2 two successive explicit syncs of one publisher while a listener registers and cancels at scheduler-chosen moments and a reader polls (checking the latest-synced value at the moment each event arrives); N3 an announce-triggered sync with a failing block request; N4 an explicit / an announce-triggered sync racing with Close while a listener registered beforehand reads only at the end; N5 explicit syncs of two publishers and a failing announce-triggered sync (three notifications in flight); N6 an announce-triggered and an explicit sync (own scoped hook) of one publisher overlapping, each notification's count compared with the hook calls of its own sync. Outside the scheduler: one listener that never reads and one that does, 150 (thorough 600) sequential syncs, each of which must return and reach the reader, and the backlog must arrive complete and in order in the end. All interleavings at the scheduling points (locks, atomics, channel operations of OnSyncFinished / cancel / the distributor, selects, spawns, requests, hook calls, observations) up to the preemption bound. states = distinct decision states; transitions = scheduling steps; traces = executions of the real code.",
+		"scenarios on the real subscriber built with the instrumentation overlay (gated in-memory publishers, chains of 3 signed ads): N1 two publishers synced by two threads with a reading and a never-reading listener; N2 two successive explicit syncs of one publisher while a listener registers and cancels at scheduler-chosen moments and a reader polls (checking the latest-synced value at the moment each event arrives); N3 an announce-triggered sync with a failing block request; N4 an explicit / an announce-triggered sync racing with Close while a listener registered beforehand reads only at the end; N5 explicit syncs of two publishers and a failing announce-triggered sync (three notifications in flight); N6 an announce-triggered and an explicit sync (own scoped hook) of one publisher overlapping, each notification's count compared with the hook calls of its own sync; N7 one thread registering a listener, syncing, registering a second one, syncing again (registration precedes the sync by program order). Outside the scheduler: one listener that never reads and one that does, 150 (thorough 600) sequential syncs, each of which must return and reach the reader, and the backlog must arrive complete and in order in the end. All interleavings at the scheduling points (locks, atomics, channel operations of OnSyncFinished / cancel / the distributor, selects, spawns, requests, hook calls, observations) up to the preemption bound. states = distinct decision states; transitions = scheduling steps; traces = executions of the real code.",
 		"cooperative scheduling at synchronization operations; every multi-case select is a priority select whose first-tried case is a scheduler decision (a non-default first case costs one unit of the bound, like a preemption); at most 3 listeners and 2 publishers",
 		"in N1 and N2 the chain blocks are already in the destination store (they are reported but not requested), so each sync makes only the head request",
 		"'registered before the sync finished' is judged by real-time order in the observation log: registration returned before the sync was invoked, cancel invoked after it returned",
@@ -657,7 +738,7 @@ func TestCheck(t *testing.T) {
 	if vp.Thorough() {
 		bound = 3
 	}
-	scs := []*sched.Scenario{syncVsClose("explicit"), syncVsClose("announce"), overlappingSyncsOfOnePublisher(), threeInFlight(), twoPublishers(), registerDuringSyncs(), failingAnnounce()}
+	scs := []*sched.Scenario{registerThenSync(), syncVsClose("explicit"), syncVsClose("announce"), overlappingSyncsOfOnePublisher(), threeInFlight(), twoPublishers(), registerDuringSyncs(), failingAnnounce()}
 	r.Bounds(map[string]any{"preemption_bound": bound, "scenarios": len(scs)})
 	budget := 0.0
 	if v := os.Getenv("VERIF_BUDGET_S"); v != "" {
